@@ -340,3 +340,61 @@ class CollectionApplyFilters(Contract):
 
     def frame_ok(self, I, inp, obj, name):
         return obj is inp["self"] and name == "rules"
+
+
+@register
+class LogSourceValues(Contract):
+    """SigmaLogSource.from_dict: category / product / service / definition are the values the document gives - a value that is present is
+    never turned into "not set" (an unset attribute of a filter's log source covers every rule; an empty text covers none that names one)"""
+    id = "C11.SigmaLogSource.from_dict[values]"
+    target = "sigma.rule.logsource:SigmaLogSource.from_dict"
+    props = ("C11", "C06", "C13")
+    cases = ("all four", "product only", "with custom attribute")
+
+    def setup(self, E):
+        E._c11_ls = []
+
+        def hook(I, cinfo, args, kwargs):
+            from pyvc.interp import UNBOUND
+            if cinfo.name == "SigmaLogSource":
+                E._c11_ls.append((list(args), dict(kwargs)))
+                return SObj("NewLogSource", {"a": list(args), "k": dict(kwargs)})
+            return UNBOUND
+        E.instantiate_hook = hook
+
+    def args(self, I, case):
+        del I.E._c11_ls[:]
+        vals = {k: I.fresh(k, "str") for k in (("category", "product", "service", "definition") if case != "product only" else ("product",))}      # arbitrary texts, the empty one included
+        d = dict(vals)
+        if case == "with custom attribute":
+            d["zone"] = I.fresh("zone", "str")
+        return {"self": ClassRef(I.E.index.lookup("sigma.rule.logsource:SigmaLogSource")), "args": [d, None], "vals": vals, "case": case}
+
+    def post(self, I, inp, r):
+        c = I.ctx
+        ok = len(I.E._c11_ls) == 1
+        c.require(ok, "one log source object is built")
+        if not ok:
+            return
+        a, k = I.E._c11_ls[0]
+        names = ["category", "product", "service", "definition"]
+        got = {n: (a[i] if i < len(a) else k.get(n)) for i, n in enumerate(names)}
+        for n in names:
+            want = inp["vals"].get(n)
+            g = I.force(got[n]) if got[n] is not None else None
+            c.require((g is None) if want is None else (isinstance(g, Sym) and z3.eq(g.t, want.t)), f"{n}: the value given by the document ({'absent -> None' if want is None else 'present, whatever its text -> that text'})")
+
+    def frame_ok(self, I, inp, obj, name):
+        return False
+
+    def candidates(self):
+        return iter(({"service": ""}, {"product": ""}, {"category": ""}))
+
+    def replay(self, values):
+        from sigma.rule import SigmaLogSource
+        for n in ("category", "product", "service", "definition"):
+            if n in values:
+                ls = SigmaLogSource.from_dict({"product": "windows", "category": "c", n: values[n]})
+                if getattr(ls, n) != values[n]:
+                    return f"log source with {n} = {values[n]!r} loads with {n} = {getattr(ls, n)!r}"
+        return None
